@@ -95,7 +95,7 @@ var c10ElasticSpec = &c10spec{
 func verifC10Elastic(c *drv.Ctx) {
 	frames := []string{"cl"}
 	if c.Thorough() {
-		frames = []string{"cl", "chunked", "eof"}
+		frames = []string{"cl", "chunked", "eof", "gzip"}
 	}
 	c.R.Rule = "real elastic.Scanner.Scan (request timeout 300 ms) against one scripted loopback server per script, each on its own 127.x.y.z:port, self-signed certificate made at run time. " +
 		"script = scheme {http, https} x answer to GET / x answer to GET /_aliases {ok: 200 json object, fail: connection closed, stall: nothing sent}. " +
